@@ -1,16 +1,14 @@
 import Arc.Proofs.C04.Basic
-/-! C04: the buffer invariant (every buffer holds clean batches of one signature) is preserved by
+/-! C04: the buffer invariant (every buffered batch has columns of one length) is preserved by
 every request of the carve-out, and under it no step can panic. -/
 namespace Arc.C04
 open Arc.Generated.C04
 
-def GoodBuf (l : List Batch) : Prop :=
-  (∀ b ∈ l, cleanBatch b = true) ∧ (∀ b1 ∈ l, ∀ b2 ∈ l, SigEq b1 b2)
+def GoodBuf (l : List Batch) : Prop := ∀ b ∈ l, evenBatch b = true
 
 def Inv (s : St) : Prop := ∀ p ∈ s.bufs, GoodBuf p.2
 
-theorem goodBuf_nil : GoodBuf [] :=
-  ⟨fun _ h => absurd h List.not_mem_nil, fun _ h _ _ => absurd h List.not_mem_nil⟩
+theorem goodBuf_nil : GoodBuf [] := fun _ h => absurd h List.not_mem_nil
 
 theorem lookup_mem {k : Name} {v : List Batch} : ∀ {l : List (Name × List Batch)}, l.lookup k = some v → (k, v) ∈ l
   | [], h => by simp [List.lookup] at h
@@ -64,54 +62,31 @@ theorem bufGet_applyFlush (s : St) (k k' : Name) (l : List Batch) (r : Option Fi
     bufGet (applyFlush s k' l r) k = bufGet s k := by
   cases r <;> rfl
 
-theorem goodBuf_single {b : Batch} (h : cleanBatch b = true) : GoodBuf [b] := by
-  constructor
-  · intro b' hb'; simp only [List.mem_singleton] at hb'; subst hb'; exact h
-  · intro b1 h1 b2 h2
-    simp only [List.mem_singleton] at h1 h2
-    subst h1; subst h2; exact fun _ => Iff.rfl
+theorem goodBuf_single {b : Batch} (h : evenBatch b = true) : GoodBuf [b] := by
+  intro b' hb'; simp only [List.mem_singleton] at hb'; subst hb'; exact h
 
-theorem goodBuf_snoc {old : List Batch} {b : Batch} (ho : GoodBuf old) (hb : cleanBatch b = true)
-    (hs : schemaChanged old b = false) : GoodBuf (old ++ [b]) := by
-  cases old with
-  | nil => exact goodBuf_single hb
-  | cons h rest =>
-    have hhb : SigEq h b := by
-      unfold schemaChanged at hs
-      simp only [Bool.not_eq_false'] at hs
-      exact (sameSig_iff h b).1 hs
-    have hx : ∀ x ∈ h :: rest, SigEq x b := fun x hx p =>
-      ((ho.2 x hx h (List.mem_cons_self ..)) p).trans (hhb p)
-    constructor
-    · intro x hx'
-      rcases List.mem_append.1 hx' with h1 | h1
-      · exact ho.1 x h1
-      · simp only [List.mem_singleton] at h1; subst h1; exact hb
-    · intro x1 h1 x2 h2
-      rcases List.mem_append.1 h1 with h1a | h1b <;> rcases List.mem_append.1 h2 with h2a | h2b
-      · exact ho.2 x1 h1a x2 h2a
-      · have e2 : x2 = b := by simpa using h2b
-        rw [e2]; exact hx x1 h1a
-      · have e1 : x1 = b := by simpa using h1b
-        rw [e1]; exact fun p => ((hx x2 h2a) p).symm
-      · have e1 : x1 = b := by simpa using h1b
-        have e2 : x2 = b := by simpa using h2b
-        rw [e1, e2]; exact fun _ => Iff.rfl
+theorem goodBuf_snoc {old : List Batch} {b : Batch} (ho : GoodBuf old) (hb : evenBatch b = true) :
+    GoodBuf (old ++ [b]) := by
+  intro x hx
+  rcases List.mem_append.1 hx with h1 | h1
+  · exact ho x h1
+  · have : x = b := by simpa using h1
+    rw [this]; exact hb
 
-theorem syncStage_ok {s : St} (h : Inv s) (k : Name) {b : Batch} (hb : cleanBatch b = true) :
+theorem syncStage_ok {s : St} (h : Inv s) (k : Name) {b : Batch} (hb : evenBatch b = true) :
     ∃ s1, syncStage s k b = .ok s1 ∧ Inv s1 ∧ GoodBuf (bufGet s1 k ++ [b]) := by
   unfold syncStage
   have hg := bufGet_good h k
   by_cases hc : schemaChanged (bufGet s k) b = true
   · simp only [hc, ↓reduceIte]
-    obtain ⟨r, hr⟩ := flushBatches_ok hg.1 hg.2
+    obtain ⟨r, hr⟩ := flushBatches_ok hg
     rw [hr]
     refine ⟨_, rfl, inv_applyFlush (inv_erase h k) _ _ _, ?_⟩
     rw [bufGet_applyFlush, bufGet_erase]
     exact goodBuf_single hb
   · have hc' : schemaChanged (bufGet s k) b = false := by simpa using hc
     simp only [hc', Bool.false_eq_true, ↓reduceIte]
-    exact ⟨s, rfl, h, goodBuf_snoc hg hb hc'⟩
+    exact ⟨s, rfl, h, goodBuf_snoc hg hb⟩
 
 theorem appendStage_ok (cfg : Cfg) {s1 : St} (h : Inv s1) (k : Name) {b : Batch}
     (hg : GoodBuf (bufGet s1 k ++ [b])) :
@@ -120,7 +95,7 @@ theorem appendStage_ok (cfg : Cfg) {s1 : St} (h : Inv s1) (k : Name) {b : Batch}
   simp only
   have h2 : Inv ({ s1 with appended := s1.appended + b.nrec } : St) := h
   split
-  · obtain ⟨r, hr⟩ := flushBatches_ok hg.1 hg.2
+  · obtain ⟨r, hr⟩ := flushBatches_ok hg
     rw [hr]
     exact ⟨_, rfl, inv_applyFlush (inv_erase h2 k) _ _ _⟩
   · exact ⟨_, rfl, inv_set h2 k hg⟩
@@ -141,7 +116,7 @@ theorem envPanics_false (cfg : Cfg) {db : Name} (h : validDb db = true) : envPan
   simp [h2]
 
 theorem writeBatch_ok (cfg : Cfg) {s : St} (h : Inv s) {db : Name} (hdb : validDb db = true) (meas : Name)
-    {b : Batch} (hb : cleanBatch b = true) :
+    {b : Batch} (hb : evenBatch b = true) :
     ∃ s', writeBatch cfg s db meas b = .ok (.ok, s') ∧ Inv s' := by
   unfold writeBatch
   simp only [envPanics_false cfg hdb, Bool.false_eq_true, ↓reduceIte]
@@ -154,17 +129,27 @@ theorem writeBatch_ok (cfg : Cfg) {s : St} (h : Inv s) {db : Name} (hdb : validD
 def cleanConv (cols : List (Name × List Cell)) (times : List Int) (nrec : Nat) : Bool :=
   match convert cols times nrec with
   | none => true
-  | some b => cleanBatch b
+  | some b => evenBatch b
 
-/-- every batch a record hands to the buffer is clean (decidable) -/
+/-- every batch a record hands to the buffer has columns of one length (decidable) -/
 def CleanRec : Rec → Bool
   | .nested => true
-  | .typed _ b => cleanBatch b
+  | .typed _ b => evenBatch b
   | .generic _ cols times nrec => cleanConv cols times nrec
   | .rows _ rows times nrec => cleanConv (rowsToColumnar rows) times nrec
 
-/-- the explicit carve-out of `C04_partial`: no empty / `_`-prefixed column names, even column lengths -/
+/-- the explicit carve-out of `C04_partial`: even column lengths (names are unrestricted) -/
 def CleanReq (r : Req) : Bool := r.recs.all CleanRec
+
+theorem bufferBatch_ok (cfg : Cfg) {s : St} (h : Inv s) {db : Name} (hdb : validDb db = true) (meas : Name)
+    {b : Batch} (hb : evenBatch b = true) :
+    ∃ o s', bufferBatch cfg s db meas b = .ok (o, s') ∧ Inv s' ∧ (∀ site, o ≠ .reqPanic site) := by
+  unfold bufferBatch
+  split
+  · exact ⟨.reject, s, rfl, h, fun _ hh => by cases hh⟩
+  · obtain ⟨s', hw, hi⟩ := writeBatch_ok cfg h hdb meas (b := b) hb
+    simp only [hw]
+    exact ⟨_, _, rfl, hi, fun _ hh => by cases hh⟩
 
 theorem writeRec_ok (cfg : Cfg) {s : St} (h : Inv s) {db : Name} (hdb : validDb db = true) {r : Rec}
     (hr : CleanRec r = true) :
@@ -172,9 +157,8 @@ theorem writeRec_ok (cfg : Cfg) {s : St} (h : Inv s) {db : Name} (hdb : validDb 
   cases r with
   | nested => exact ⟨.reject, s, rfl, h, fun _ hh => by cases hh⟩
   | typed meas b =>
-    obtain ⟨s', hw, hi⟩ := writeBatch_ok cfg h hdb meas (b := b) hr
-    simp only [writeRec, hw]
-    exact ⟨_, _, rfl, hi, fun _ hh => by cases hh⟩
+    simp only [writeRec]
+    exact bufferBatch_ok cfg h hdb meas (b := b) hr
   | generic meas cols times nrec =>
     simp only [writeRec]
     simp only [CleanRec, cleanConv] at hr
@@ -182,9 +166,7 @@ theorem writeRec_ok (cfg : Cfg) {s : St} (h : Inv s) {db : Name} (hdb : validDb 
     | none => exact ⟨_, _, rfl, h, fun _ hh => by cases hh⟩
     | some b =>
       simp only [hc] at hr
-      obtain ⟨s', hw, hi⟩ := writeBatch_ok cfg h hdb meas (b := b) hr
-      simp only [hw]
-      exact ⟨_, _, rfl, hi, fun _ hh => by cases hh⟩
+      exact bufferBatch_ok cfg h hdb meas (b := b) hr
   | rows meas rows times nrec =>
     simp only [writeRec]
     simp only [CleanRec, cleanConv] at hr
@@ -192,9 +174,7 @@ theorem writeRec_ok (cfg : Cfg) {s : St} (h : Inv s) {db : Name} (hdb : validDb 
     | none => exact ⟨_, _, rfl, h, fun _ hh => by cases hh⟩
     | some b =>
       simp only [hc] at hr
-      obtain ⟨s', hw, hi⟩ := writeBatch_ok cfg h hdb meas (b := b) hr
-      simp only [hw]
-      exact ⟨_, _, rfl, hi, fun _ hh => by cases hh⟩
+      exact bufferBatch_ok cfg h hdb meas (b := b) hr
 
 theorem writeRecs_ok (cfg : Cfg) {db : Name} (hdb : validDb db = true) :
     ∀ (recs : List Rec) {s : St} (added : Nat), Inv s → (∀ r ∈ recs, CleanRec r = true) →
@@ -214,7 +194,7 @@ theorem flushAll_ok : ∀ (L : List (Name × List Batch)) (s : St) (err : Bool),
   | [], s, err, _, h => ⟨_, _, rfl, h⟩
   | (k, l) :: rest, s, err, hL, h => by
     have hg := hL (k, l) (List.mem_cons_self ..)
-    obtain ⟨r, hr⟩ := flushBatches_ok hg.1 hg.2
+    obtain ⟨r, hr⟩ := flushBatches_ok hg
     unfold flushAll
     rw [hr]
     exact flushAll_ok rest _ _ (fun p hp => hL p (List.mem_cons_of_mem _ hp))
@@ -264,7 +244,7 @@ theorem drain_ok : ∀ (L : List (Name × List Batch)) (s : St),
   | [], s, _ => ⟨_, rfl⟩
   | (k, l) :: rest, s, hL => by
     have hg := hL (k, l) (List.mem_cons_self ..)
-    obtain ⟨r, hr⟩ := flushBatches_ok hg.1 hg.2
+    obtain ⟨r, hr⟩ := flushBatches_ok hg
     unfold drain
     rw [hr]
     exact drain_ok rest _ (fun p hp => hL p (List.mem_cons_of_mem _ hp))
